@@ -40,7 +40,9 @@ class SegSocket:
             last = c
         self.pieces.append(stream[last:])
         self.i = 0
-        self.eintr = set(eintr)
+        self.eintr = {}
+        for i in eintr:  # a piece index may be listed several times: that many EINTRs in a row
+            self.eintr[i] = self.eintr.get(i, 0) + 1
         self.sent = b""
         self.closed = False
         self.overrun = False
@@ -58,8 +60,8 @@ class SegSocket:
         self.sent += data
 
     def recv(self, n):
-        if self.i in self.eintr:
-            self.eintr.discard(self.i)
+        if self.eintr.get(self.i):
+            self.eintr[self.i] -= 1
             raise OSError(errno.EINTR, "Interrupted system call")
         if self.i >= len(self.pieces):
             self.overrun = True  # the client asked for more than the server sent
@@ -218,8 +220,11 @@ def eintr_sets(npieces, ncuts, tier):
     if ncuts <= lim:
         for i in range(npieces):
             yield (i,)
+            yield (i, i)
+            yield (i, i, i)
         if npieces > 1:
             yield tuple(range(npieces))
+            yield tuple(range(npieces)) * 2
 
 
 def _worker(job, chk):
@@ -280,7 +285,7 @@ def connshort(v):
 def run(chk):
     chk.rule = RULE
     chk.assumptions = ["reply streams are those of the reference server (vmc/modelserver.py)",
-                       "recv(n) never returns more than n bytes; EINTR is raised at most once per piece"]
+                       "recv(n) never returns more than n bytes; up to 3 consecutive EINTRs before a piece"]
     jobs = [(i, chk.tier) for i in range(len(scenarios()))]
     chk.info["max_cuts_long_replies"] = 3 if chk.tier == "quick" else 4
     runner.parallel(chk, _worker, jobs)
